@@ -153,7 +153,10 @@ def _fixed_corpus():
     w_catch = g.call("t", True, [ct, ct, ("tags", f1), ("tags", f1)])
     w_np = g.call("t", True, [g.call("t", False, [("lit", 5)]), ("op", "getitem0", [g.call("lst", True, [])])],
                   [("ka", ("cont", [f1, ("lit", 1), g.call("t", True, [("lit", 6)])]))])
-    return [("cont", [w_dup]), ("cont", [w_def]), ("cont", [w_def2, w_catch]), ("cont", [w_np]), ("cont", [("lit", 1)])]
+    w_cc = g.call("t", True, [("catch", g.call("boom", True, [("lit", 7)])), ("catch", g.call("t", True, [("lit", 8)]))])
+    # order matters: run() runs case i with a warm-up execution when i % 3 == 1 (w_cc: catch served from its own cache)
+    return [("cont", [w_dup]), ("cont", [w_cc]), ("cont", [w_def]), ("cont", [w_def2, w_catch]), ("cont", [w_np]),
+            ("cont", [("lit", 1)])]
 
 
 # ------------------------------------------------------------------ program -> model syntax, specification
@@ -296,11 +299,33 @@ def evaluated_calls(e, out, top=True):
         evaluated_calls(e[1], out, False)
         evaluated_calls(e[2] if T.value_of(e[1]) else e[3], out, False)
     elif k in ("catch", "tags"):
+        if k == "catch":
+            out.append(e)           # the catch itself: served from its own cache in the later execution
         evaluated_calls(e[1], out, False)
+
+
+WARM = [False]
+
+
+def has_catch(x):
+    if x[0] == "catch":
+        return True
+    if x[0] == "cont":
+        return any(has_catch(y) for y in x[1])
+    if x[0] == "op":
+        return any(has_catch(y) for y in x[2])
+    if x[0] == "tags":
+        return has_catch(x[1])
+    if x[0] == "cond":
+        return any(has_catch(y) for y in x[1:])
+    return False
 
 
 def kind_of(a, seen):
     """structural class of an argument, for the signature of a violation"""
+    if WARM[0] and has_catch(a):
+        return "cached-catch"
+
     def dup_sched(x):
         if x[0] in ("cond", "catch", "tags"):
             return repr(x) in seen
@@ -338,7 +363,9 @@ def run_program(ctx, prog, replay_run=False, warm=False):
             if inner:
                 run0 = G.CtlRun(ctx.rng, "fifo")
                 backend = run0.backend
-                r0 = run0.run(T.main(("cont", inner[: 1 + len(inner) // 2])))
+                catches = [x for x in inner if x[0] == "catch"]
+                calls = [x for x in inner if x[0] != "catch"]
+                r0 = run0.run(T.main(("cont", calls[: 1 + len(calls) // 2] + catches)))
                 if r0[0] != "ok":
                     ctx.mismatch("warm-up execution failed (harness)", case, model="ok", impl=repr(r0)[:200])
                     return None
@@ -399,7 +426,9 @@ def run_program(ctx, prog, replay_run=False, warm=False):
             for n, v in kw.items():
                 received.setdefault((lab, ("k", KW.get(n, 99))), registry.get_hash(v))
     # ---- oracle: the property on the real rows
+    WARM[0] = warm
     want = rows_of(prog)
+    WARM[0] = False
     for key, (prods, kind) in sorted(want.items(), key=repr):
         if key not in got:
             ctx.violation("C21-argument-row-missing", "a recorded call has no Argument row for a parameter it received", case,
@@ -407,7 +436,7 @@ def run_program(ctx, prog, replay_run=False, warm=False):
             continue
         ups = got[key][0]
         if ups != prods:
-            sig = {"default": "C21-upstream-missing-default-expr",
+            sig = {"default": "C21-upstream-missing-default-expr", "cached-catch": "C21-upstream-missing-cached-catch",
                    "duplicate-scheduler-expr": "C21-upstream-missing-duplicate-scheduler-expr"}.get(kind, "C21-upstream-mismatch")
             if ups - prods:
                 sig = "C21-upstream-spurious"
